@@ -15,6 +15,7 @@ def joinNat (l : List Nat) : String := if l.isEmpty then "-" else ",".intercalat
 
 def tyFlags (ty : String) : Nat × TyFlags :=
   if ty == "u8" then (1, {}) else
+  if ty == "i8" then (1, { lexMemcmp := false, signed := true }) else
   if ty == "u16" then (2, { lexMemcmp := false }) else
   if ty == "u32" then (4, { lexMemcmp := false }) else
   if ty == "u64" then (8, { lexMemcmp := false }) else
